@@ -329,6 +329,53 @@ func pickNames(r *gen.Rand, n int) []string {
 	return p
 }
 
+// exceptSizes: Except lists of every small length and around the sizes where an implementation
+// may switch from a scan to another representation.
+var exceptSizes = []int{0, 1, 2, 3, 4, 5, 6, 7, 8, 9, 10, 11, 12, 16, 17, 32, 33, 64, 65}
+
+// padExcept brings the Except list to one of exceptSizes with names no cookie uses, the names that
+// matter standing first, last or anywhere in it.
+func padExcept(r *gen.Rand, except []string) []string {
+	want := gen.Pick(r, exceptSizes)
+	if want <= len(except) {
+		return except
+	}
+	var pad []string
+	for i := len(except); i < want; i++ {
+		pad = append(pad, fmt.Sprintf("unused-%d-%s", i, r.Ident(2, 6)))
+	}
+	switch r.Intn(3) {
+	case 0:
+		return append(append([]string(nil), except...), pad...) // the real names first
+	case 1:
+		return append(pad, except...) // ... last
+	}
+	out := append(pad, except...)
+	gen.Shuffle(r, out)
+	return out
+}
+
+// selfReferential: a value that also occurs elsewhere in the cookie's own Set-Cookie line - inside
+// its name, equal to its name, an attribute name or value, a single character.
+func selfReferential(r *gen.Rand, name string) string {
+	switch r.Intn(6) {
+	case 0:
+		i := r.Intn(len(name))
+		j := i + 1 + r.Intn(len(name)-i)
+		return name[i:j]
+	case 1:
+		return name
+	case 2:
+		return name[:1+r.Intn(len(name))]
+	case 3:
+		return string(name[r.Intn(len(name))])
+	case 4:
+		return gen.Pick(r, []string{"path", "/", "Path=/", "Secure", "secure", "HttpOnly", "SameSite", "Lax", "Strict", "None", "max-age", "3600", "=", "a", "e", "p"})
+	default:
+		return name[len(name)/2:]
+	}
+}
+
 func hexs(s string) string { return hex.EncodeToString([]byte(s)) }
 
 func printable(s string) string {
@@ -536,6 +583,21 @@ func script(e *ev.Env, c *ev.Case, keyRaw []byte, key string, except []string, c
 					"value_class": ck.p.class, "set_cookie_line": printable(wc.line)}
 			}
 			if !ok {
+				// not under its name - is its value out there in the clear under another one?
+				clear := ""
+				if !ck.exc && ck.p.v != "" {
+					for n, o := range m {
+						if !inListIssued(cookies, n) && o.sc != nil && o.sc.Value == ck.p.v {
+							clear = o.line
+						}
+					}
+				}
+				if clear != "" {
+					d := det()
+					d["line_with_the_plaintext_value"] = printable(clear)
+					e.Violation(c, "confidentiality|wire-set-cookie|plaintext-value-under-another-name", "the cookie is not in the response under its name, but a Set-Cookie line of another name carries its plaintext value", d)
+					continue
+				}
 				e.Violation(c, "wire|set-cookie-missing", "cookie set by the handler is not in the response", det())
 				continue
 			}
@@ -1380,7 +1442,7 @@ func tamperBase(e *ev.Env, c *ev.Case, thorough bool) {
 			ex2 = append(ex2, x)
 		}
 	}
-	except = ex2
+	except = padExcept(r, ex2)
 	g := newRig(r, except)
 
 	var p string
@@ -1663,6 +1725,7 @@ func multi(e *ev.Env, c *ev.Case, fixed []string) {
 	if r.Chance(1, 3) {
 		except = append(except, names[0]+"_")
 	}
+	except = padExcept(r, except)
 	g := newRig(r, except)
 	// two authentic ciphertexts per encrypted name (two separate issues)
 	plain := map[string][2]string{}
@@ -1987,6 +2050,14 @@ func run(e *ev.Env) {
 				if ck.p.class == "long" {
 					long = false
 				}
+				if r.Chance(1, 8) {
+					v := selfReferential(r, names[i])
+					if lossClass(v) == "clean" {
+						// no "core" to search the response bytes for: the text legitimately occurs in
+						// the line (name, attributes); the value itself must still be ciphertext
+						ck.p = pval{v, "", "occurs-elsewhere-in-its-own-line"}
+					}
+				}
 			}
 			cookies = append(cookies, ck)
 		}
@@ -2000,6 +2071,8 @@ func run(e *ev.Env) {
 			}
 		}
 		gen.Shuffle(r, except)
+		except = padExcept(r, except)
+		stat(e, fmt.Sprintf("scripts_except_list_of_%d", len(except)), 1)
 		script(e, c, keyRaw, key, except, cookies, r.Chance(1, 3))
 		stat(e, "scripts", 1)
 	})
